@@ -1,5 +1,6 @@
 import Hls.Playlist.MediaNear
 import Hls.Playlist.MediaGenPins
+import Hls.Playlist.MediaPerm
 /-!
 # C14 — Playlist Marshal/Unmarshal round-trips every field (MEDIA playlists)
 
@@ -96,6 +97,46 @@ theorem c14_unknown_attributes (C : Codec) (k v : Str) :
    fun h t => Pins.PartInf.set_unknown C t k v h, fun h t => Pins.MapTag.set_unknown t k v h,
    fun h t => Pins.Key.set_unknown t k v h, fun h t => Pins.Skip.set_unknown t k v h,
    fun h t => Pins.Part.set_unknown C t k v h, fun h t => Pins.PreloadHint.set_unknown t k v h⟩
+
+/-- **Attribute order.** Go ranges over the attribute MAP in random order; the model folds over it in
+insertion order.  For every tag decoder and every input, every order of visiting the parsed
+attributes (every permutation; their keys are distinct) produces the same result — so the model's
+choice of one order loses nothing, and a tag whose attributes are written in another order decodes
+to the same value. -/
+theorem c14_attrs_order (C : Codec) (v : Str) (attrs attrs' : Attrs) (h : parseAttrs v = .ok attrs)
+    (hp : attrs.Perm attrs') :
+    (attrs.map (·.1)).Nodup ∧
+    (∀ i, rangeAttrs attrs i (Start.set C) = rangeAttrs attrs' i (Start.set C)) ∧
+    (∀ i, rangeAttrs attrs i (ServerControl.set C) = rangeAttrs attrs' i (ServerControl.set C)) ∧
+    (∀ i, rangeAttrs attrs i (PartInf.set C) = rangeAttrs attrs' i (PartInf.set C)) ∧
+    (∀ i, rangeAttrs attrs i MapTag.set = rangeAttrs attrs' i MapTag.set) ∧
+    (∀ i, rangeAttrs attrs i Key.set = rangeAttrs attrs' i Key.set) ∧
+    (∀ i, rangeAttrs attrs i Skip.set = rangeAttrs attrs' i Skip.set) ∧
+    (∀ i, rangeAttrs attrs i (Part.set C) = rangeAttrs attrs' i (Part.set C)) ∧
+    (∀ i, rangeAttrs attrs i PreloadHint.set = rangeAttrs attrs' i PreloadHint.set) :=
+  ⟨parseAttrs_nodup h,
+   rangeAttrs_order (Start.set_commutes C) h hp, rangeAttrs_order (ServerControl.set_commutes C) h hp,
+   rangeAttrs_order (PartInf.set_commutes C) h hp, rangeAttrs_order MapTag.set_commutes h hp,
+   rangeAttrs_order Key.set_commutes h hp, rangeAttrs_order Skip.set_commutes h hp,
+   rangeAttrs_order (Part.set_commutes C) h hp, rangeAttrs_order PreloadHint.set_commutes h hp⟩
+
+/-- the same at the text level: a tag decoder (`decodeWith set init fin` is the shape of all eight)
+gives the same result on the attributes `as` rendered in any other order `as'` -/
+theorem c14_attrs_order_text (C : Codec) {as as' : List (Str × AV)} (hp : as.Perm as') (hok : ∀ a ∈ as, AttrOK a)
+    (hnd : (as.map (·.1)).Nodup) :
+    decodeWith (Part.set C) {} (fun p => if p.duration = 0 then .err else if p.uri = [] then .err else pure p) (renderAttrs as') =
+      decodeWith (Part.set C) {} (fun p => if p.duration = 0 then .err else if p.uri = [] then .err else pure p) (renderAttrs as) ∧
+    decodeWith Key.set {} (fun t => if (t.method = methodAES128 ∨ t.method = methodSampleAES) ∧ t.uri = [] then Res.err else pure t)
+        (renderAttrs as') =
+      decodeWith Key.set {} (fun t => if (t.method = methodAES128 ∨ t.method = methodSampleAES) ∧ t.uri = [] then Res.err else pure t)
+        (renderAttrs as) ∧
+    (∀ {α β} (set : α → Str → Str → Res α) (init : α) (fin : α → Res β), Commutes set →
+      decodeWith set init fin (renderAttrs as') = decodeWith set init fin (renderAttrs as)) :=
+  ⟨decode_render_perm (Part.set_commutes C) _ _ hp hok hnd, decode_render_perm Key.set_commutes _ _ hp hok hnd,
+   fun _ _ _ hc => decode_render_perm hc _ _ hp hok hnd⟩
+
+example (C : Codec) (v : Str) : Part.unmarshal C v =
+    decodeWith (Part.set C) {} (fun p => if p.duration = 0 then .err else if p.uri = [] then .err else pure p) v := rfl
 
 /-- the attribute tokenizer recovers any rendered attribute list (names without `=` / leading blank,
 quoted values without `"`, unquoted values without `,` and not starting with `"`) -/
